@@ -328,6 +328,10 @@ func init() {
 					st = &Stmt{Kind: "select", Where: kpre}
 				case 1:
 					st = &Stmt{Kind: "select", Fields: []Field{{E: AKey()}, n}, Where: ABin("&", kpre, ABin(">", AName("n"), AInt(2))), Order: []Ord{{F: 2, Desc: true}, {F: 1}}, Lim: Lim{Has: true, S: 0, N: 3}}
+					if r.Intn(2) == 0 {
+						st.Lim = Lim{} // drained to the end: the order node itself sees the end of its input
+						st.Where = kpre
+					}
 				case 2:
 					st = &Stmt{Kind: "select", Fields: []Field{{E: ACall("count", AInt(1)), Nm: "c"}, {E: ACall("sum", ACall("int", AVal())), Nm: "s"}}, Where: kpre}
 				case 3:
